@@ -193,6 +193,52 @@ def scale(cx):
     cx.check(len(rest) == n - 1 and rest[-1].bytes() == last, 'long-stream-nothing-dropped')
 
 
+# one representative per byte class, with both edges of the data / status ranges
+BYTE_CLASS = [0x00, 0x41, 0x7F, 0x80, 0x93, 0xBF, 0xC2, 0xDF, 0xE1, 0xEF,
+              0xF0, 0xF1, 0xF2, 0xF3, 0xF4, 0xF6, 0xF7, 0xF8, 0xF9, 0xFE, 0xFF]
+OPEN = [[], [0xF0, 1], [0x90, 2], [0xF2]]
+REAL_CONTAINERS = {'bytes': bytes, 'bytearray': bytearray, 'memoryview': lambda c: memoryview(bytes(c)),
+                   'tuple': tuple, 'generator': lambda c: (b for b in c)}
+
+
+def class_stream(cx, N):
+    """An opening fragment (possibly leaving a message or a sysex in progress) and N items, one representative
+    per byte class each, every item chosen by a certified fork: concrete, so they fit in REAL bytes objects."""
+    pre = OPEN[cx.choice('open', len(OPEN))]
+    return pre, [BYTE_CLASS[cx.choice('c%d' % i, len(BYTE_CLASS))] for i in range(N)]
+
+
+@harness(labels=['no-exception', 'messages', 'every-message-valid', 'realtime-exactly-once-in-order',
+                 'others-subsequence-of-input'])
+def real_containers(cx, N, container):
+    """Real bytes / bytearray / memoryview / tuple / generator chunks (a library may treat them on a separate
+    path): an opening fragment fed in one call, then N class representatives in a second call of that container."""
+    import mido
+    pre, items = class_stream(cx, N)
+    mk = REAL_CONTAINERS[container]
+    p = mido.Parser()
+    _, exc = cx.raises(lambda: (p.feed(mk(pre)), p.feed(mk(items))), label='no-exception')
+    if exc is None:
+        _judge_stream(cx, mido, pre + items, list(p))
+
+
+@harness(labels=['unterminated-sysex-emits-nothing', 'then-completes'])
+def scale_open_sysex(cx):
+    """Concrete scale probe: a sysex that is never terminated produces no message however long it gets, and
+    still completes when its F7 finally arrives."""
+    import mido
+    n = [1000, 65536, 131072 + 3, 1048577][cx.choice('len', 4)]
+    kind = cx.choice('container', 2)
+    body = [0xF0] + [i % 128 for i in range(n)]
+    p = mido.Parser()
+    p.feed(bytes(body) if kind else body)
+    cx.check(p.pending() == 0, 'unterminated-sysex-emits-nothing')
+    p.feed([0xF8, 0xF7])
+    out = list(p)
+    cx.check(len(out) == 2 and out[0].type == 'clock' and out[1].type == 'sysex' and len(out[1].data) == n
+             and out[1].data[-1] == (n - 1) % 128, 'then-completes')
+
+
 NONBYTES = [256, -1, 1.5, 'a', None, 1000, b'\x01']
 
 
@@ -218,7 +264,7 @@ BOUNDS = {
              'inductive step: every tokenizer state satisfying the representation invariant with buffer length '
              '1..6 (active, any status that opens a multi-byte message, symbolic data bytes) or idle with 0..3 '
              'arbitrary stale bytes, one arbitrary byte 0..255; non-byte items: 7-value menu; concrete scale probe (streams of 1025..70001 messages)',
-    'thorough': 'bounded direct up to length 4 (split into 31 first-byte ranges); inductive buffer length up to 12',
+    'thorough': 'bounded direct up to length 4 (split into 31 first-byte ranges); inductive buffer length up to 12; real containers with 3 items',
 }
 OUTSIDE = 'streams longer than the direct bound are covered only through the inductive step, which reads the ' \
           'tokenizer internals _status/_bytes/_len (if they are renamed the harness answers INCONCLUSIVE); ' \
@@ -246,5 +292,9 @@ def JOBS(tier):
     for k in range(0, 3):
         jobs.append((feed_nonbyte, {'k': k}, {}))
     jobs.append((scale, {}, {'cost': 100}))
+    jobs.append((scale_open_sysex, {}, {'cost': 100}))
+    for c in REAL_CONTAINERS:
+        for n in range(0, (2 if tier == 'quick' else 3) + 1):
+            jobs.append((real_containers, {'N': n, 'container': c}, {'cost': 21 ** n}))
     jobs.append((detached, {}, {}))
     return jobs
